@@ -12,6 +12,48 @@ from sa.report import where
 MODEL = 'torchtree.evolution.tree_likelihood.TreeLikelihoodModel'
 
 
+def inf_test_kind(t) -> str:
+    """'some' if the test is true as soon as one element is infinite, 'all' if it needs every element, '?' otherwise"""
+    def red(e):
+        # (reduction, inner)
+        if isinstance(e, ast.Call):
+            n = method_name(e)
+            if n in ('any', 'all'):
+                if isinstance(e.func, ast.Attribute) and not (isinstance(e.func.value, ast.Name) and e.func.value.id == 'torch'):
+                    return n, e.func.value
+                if e.args:
+                    return n, e.args[0]
+            if n in ('bool',) and e.args:
+                return red(e.args[0])
+        return None, e
+
+    def elem(e):
+        # 'inf' | 'finite' | None for the element-wise predicate
+        if isinstance(e, ast.Call) and method_name(e) in ('isinf', 'isneginf'):
+            return 'inf'
+        if isinstance(e, ast.Call) and method_name(e) == 'isfinite':
+            return 'finite'
+        if isinstance(e, ast.UnaryOp) and isinstance(e.op, (ast.Invert, ast.Not)):
+            r = elem(e.operand)
+            return {'inf': 'finite', 'finite': 'inf'}.get(r)
+        if isinstance(e, ast.Call) and method_name(e) == 'logical_not':
+            r = elem(e.args[0] if e.args else e.func.value)
+            return {'inf': 'finite', 'finite': 'inf'}.get(r)
+        return None
+    neg = False
+    while isinstance(t, ast.UnaryOp) and isinstance(t.op, ast.Not):
+        neg = not neg
+        t = t.operand
+    r, inner = red(t)
+    el = elem(inner)
+    if el is None:
+        return '?'
+    if r is None:
+        return '?' if neg or el != 'inf' else 'some'   # scalar isinf(v): only meaningful un-batched, and an error (not silence) otherwise
+    table = {('any', 'inf', False): 'some', ('all', 'finite', True): 'some', ('all', 'inf', False): 'all', ('any', 'finite', True): 'all'}
+    return table.get((r, el, neg), '?')
+
+
 def run(ctx, rep):
     rep.explanation = (
         "C03.S: the rescale flag is monotone (only the constant True is ever stored outside the constructor).  C03.G: in both calculate_with_* "
@@ -118,6 +160,13 @@ def run(ctx, rep):
             returns_v = len(rets) == 1 and isinstance(rets[0].value, ast.Name) and rets[0].value.id == v
             on_v = all(isinstance(getattr(c, '_parent', None), ast.Assign) and c._parent.targets[0].id == v for c in on if isinstance(getattr(c, '_parent', None), ast.Assign))
             ok = tested and is_inf and sets and bool(redo) and same_args and returns_v and on_v
+            kind = inf_test_kind(chk.test)
+            if kind == '?':
+                rep.undecided('C03.G', f"{meth}::switches-when-any-element-is-infinite", where(cls.module, chk), f"test `{norm_text(chk.test)}` not recognised")
+            else:
+                rep.check('C03.G', f"{meth}::switches-when-any-element-is-infinite", kind == 'some', where(cls.module, chk), {'test': norm_text(chk.test)},
+                          f"{meth}: `{norm_text(chk.test)}` only fires when every element of the batch is infinite: a batch in which some elements underflow keeps "
+                          f"returning -inf for them and never switches to rescaling")
             facts = {'value': v, 'tested_for_inf': tested and is_inf, 'sets_flag': sets, 'recomputed_with': redo[0].value.func.id if redo else None,
                      'same_arguments': same_args, 'returns_value': returns_v}
             shapes[meth] = (facts['recomputed_with'] is not None, plain_calls[0].value.func.id, [c.func.id for c in on])
